@@ -10084,10 +10084,11 @@ impl<
 			return;
 		}
 		if claimable_amt_msat != expected_amt_msat.unwrap() {
-			self.claimable_payments.lock().unwrap().pending_claiming_payments.remove(&payment_hash);
 			log_info!(self.logger, "Attempted to claim an incomplete payment, expected {} msat, had {} available to claim.",
 				expected_amt_msat.unwrap(), claimable_amt_msat);
-			return;
+			// A part was failed back since `PaymentClaimable` was generated; the remaining parts can
+			// no longer complete the payment, so fail them back rather than dropping them.
+			valid_mpp = false;
 		}
 		if valid_mpp {
 			let mpp_parts: Vec<_> = sources
